@@ -132,14 +132,23 @@ def variant_cases(tier, rng, ifaces, names, n, g0=0):
             units.insert(rng.randint(0, len(units)), StdU(rng, iface, rng.choice(std)))
         log = [u.entry for u in units if u.entry is not None]
         errs = [e for u in units if u.decl is not None for e in G.decl_errs(u.decl)]
+        u2 = None
+        plain = [d for d in iface.decls if not d.args and not G.decl_errs(d) and not d.cmd.startswith('*')]
+        if plain and rng.random() < 0.3:
+            # the message ends with the legal trailing `;`, and a second message follows whose first header has no leading colon
+            u2 = U(rng, iface, rng.choice(plain))
+            u2.absolute = False
+            log = log + [u2.entry]
         meta = {'log': log, 'errs': errs, 'group': g, 'kind': 'variant'}
-        base = b';'.join(u.render(rng, 'base') for u in units) + b'\n'
+        base = b';'.join(u.render(rng, 'base') for u in units) + (b'\n' if u2 is None else b';\n' + u2.render(rng, 'base') + b'\n')
         out.append(Case(f'RUN {iface.name} std {hx(base)}', oracle, dict(meta, kind='base')))
         nv = 8 if tier == 'quick' else 14
         for v in range(nv):
             wsb = WS[(g * nv + v) % len(WS)]        # every individual white-space byte value gets its turn
             text = b';'.join(u.render(rng, 'var', wsb) for u in units)
             term = rng.choice([b'\n', b'\r\n', bytes([wsb]) + b'\n', b' \r\n'])
+            if u2 is not None:
+                term = rng.choice([b';', b' ;', b'; ', bytes([wsb]) + b';']) + term + u2.render(rng, 'var', wsb) + rng.choice([b'\n', b'\r\n'])
             out.append(Case(f'RUN {iface.name} std {hx(text + term)}', oracle, meta))
             if v % 4 == 0 and len(text) + len(term) <= 250:
                 # the same variant streamed through process, read boundaries everywhere (also inside runs of white space)
